@@ -388,11 +388,11 @@ def run_case(case, t: Tally, verbose=False):
             diff = [n for n, a, b in zip(("scheme", "host", "port", "path", "query", "fragment"), exp, got) if a != b]
             t.judge("url_roundtrip", not diff, dict(feats, how=diff[0] if diff else ""), case, [u, exp], [u1, got])
         # scheme, host, port, path read back consistently with it
-        comp, ex = try_(lambda: (r.scheme, r.host, r.port, r.path, r.pretty_url))
+        comp, ex = try_(lambda: (r.scheme, r.host, r.port, r.path))
         if ex is not None:
             t.bad("components_consistent", dict(feats, how="raises", exc=type(ex).__name__), case, None, repr(ex))
         else:
-            sc, ho, po, pa, _ = comp
+            sc, ho, po, pa = comp
             obs = (sc, canon_host(bare_host(ho)) if isinstance(ho, str) else None, po) + (split_pqf(pa) if isinstance(pa, str) else (None,) * 3)
             diff = [n for n, a, b in zip(("scheme", "host", "port", "path", "query", "fragment"), exp, obs) if a != b]
             t.judge("components_consistent", not diff, dict(feats, how=diff[0] if diff else ""), case, exp, [comp[:4], obs])
